@@ -228,7 +228,7 @@ def run(tier, t0):
     for p in runner.parallel("vf.props.c16", "piped_part", [(sh, 4 if tier == "quick" else 40, runner.SEED) for sh in range(runner.NPROC)]):
         part.merge(p)
     from ..fuzz import driver
-    fuzz_note = driver.campaign(part, "dialogue", runs=160000 if tier == "quick" else 4000000, only=("dialogue",))
+    fuzz_note = driver.campaign(part, "dialogue", runs=160000 if tier == "quick" else 1500000, only=("dialogue",))
     rule = ("version in {2, 3, 3.0, 3.1, 4, 4.0} x all_metrics x no_colors x answer script (per question 0-3 rejected-looking "
             "answers: junk text, values of other metrics, empty where illegal, value+suffix; then a legal value in random "
             "letter case/padding or empty for Not Defined); 10% truncated scripts (EOF). Covering part: every legal value of "
